@@ -40,6 +40,22 @@ def demo_c04():
     return 0 in acc and 0 not in badc and badc.get(1) == "DepsFirst", (sorted(acc), badc)
 
 
+def demo_c04_guard():
+    from . import c04
+    chk = common.Check("C04", "quick", "model_checking")
+    good_cov = c04.guard_stage(chk, only=(0, 1, 2))
+    if chk.violations or not good_cov["guard_visits"]:
+        return False, ("original rejected", [v.signature for v in chk.violations])
+    # the same recorded visits with one guard value flipped
+    import json
+    case = {"n": 1, "visits": [{"k": 1, "guard": ["cmp", ">", ["v", "<p>n"], ["c", 0]], "lhs": "<p>n", "rhs": ["c", 0],
+                                "before": [["<p>n", ["i", 1]], ["<p>hits", ["i", 0]]], "g": False,
+                                "after": [["<p>n", ["i", 1]], ["<p>hits", ["i", 0]]]}]}
+    out = tlc.judge_batch("GuardEval", [case], chunk=10, jobs=1, tags=("BAD", "RAN"))
+    badc = {t[2] for t in out["BAD"]}
+    return "GuardAtVisit" in badc, sorted(badc)
+
+
 def demo_c06():
     from . import c06
     t = ["B", [["L", 1], ["I", ["v", "c"], ["L", 2]], ["L", 3]]]
@@ -178,6 +194,7 @@ def demo_c16():
 
 
 DEMOS = [("C02 Sched: dropped dependency edge", demo_c02), ("C04 TraceController: swapped visits", demo_c04),
+         ("C04 GuardEval: guard value not that of the visit", demo_c04_guard),
          ("C05 Lower: dependent leaf first", demo_c05), ("C06 Simplify: leaves moved", demo_c06),
          ("C01 Stepper: yielded value changed", demo_c01), ("C13 Names: identifier reused", demo_c13),
          ("C20 Wrap: string split", demo_c20), ("C10 Verify: cycle reported accepted", demo_c10),
